@@ -241,7 +241,7 @@ Proof.
     intros s Hs. destruct (H s Hs) as (z & Hz). exists (fun i => STensor (ts s i)). split.
     - intros i Hi. apply (Hz i Hi).
     - left. exists (ts s), 0, z. intros i Hi. split; [reflexivity|]. destruct (Hz i Hi) as (_ & Hw & Hd).
-      split; [exact Hw|]. split; [exact Hd|left; exact E10]. }
+      split; [exact Hw|]. split; [left; exact Hd|left; exact E10]. }
   fold n. f_equal. apply map_ext. intros i. do 2 f_equal. apply map_ext_in. intros j Hj.
   apply filter_In in Hj as [Hj _]. apply in_seq in Hj. apply map_ext_in. intros s Hs.
   destruct (H s Hs) as (z & Hz). unfold state_iv. cbn [snd]. rewrite (proj1 (Hz j ltac:(lia))). reflexivity.
@@ -257,6 +257,45 @@ Corollary sync_no_mismatch_fixed_ndim fx g Wg (ms : nat -> M) (names : list stri
 Proof.
   intros n E10 Hn HW Hnd Hnames H.
   pose proof (sync_equals_local_merge_fixed_ndim fx g Wg ms names ts E10 Hn HW Hnd Hnames H) as E.
+  fold n in E. rewrite E. discriminate.
+Qed.
+
+(* fx_d10 + fx_dt (ndim and dtype negotiation, fixes/sync-dtype.patch): tensor states of ANY per-rank ndims AND
+   dtypes (a float32 default next to float64 data): nobody hangs and every rank merges the others' tensors,
+   delivered with their own shapes and in their own dtypes *)
+Theorem sync_equals_local_merge_any_dtype fx g Wg (ms : nat -> M) (names : list string)
+        (ts : string -> nat -> tensor) : let n := List.length g in
+  fx_d10 fx = true -> fx_dt fx = true -> n > 1 -> n <= Wg -> NoDup names ->
+  (forall i, i < n -> map fst (sort_keys (sd (ms i))) = names) ->
+  (forall s, In s names -> forall i, i < n ->
+     assoc s (sd (ms i)) = Some (STensor (ts s i)) /\ wf (shp (ts s i)) (dat (ts s i))) ->
+  run_all (respond g) (map (fun i => get_synced_metric M sd mrg fx g n i Wg (ms i)) (seq 0 n))
+  = Some (map (fun i => Ok (mrg (ms i)
+             (map (fun j => map (fun s => (s, GT (ts s j))) names)
+                  (filter (fun r => negb (Nat.eqb r i)) (seq 0 n))))) (seq 0 n)).
+Proof.
+  intros n E10 Edt Hn HW Hnd Hnames H.
+  etransitivity.
+  { apply (sync_equals_local_merge_structural fx g Wg ms names Hn HW Hnd Hnames).
+    intros s Hs. exists (fun i => STensor (ts s i)). split.
+    - intros i Hi. apply (H s Hs i Hi).
+    - left. exists (ts s), 0, 0%Z. intros i Hi. split; [reflexivity|]. destruct (H s Hs i Hi) as (_ & Hw).
+      split; [exact Hw|]. split; [right; rewrite E10, Edt; reflexivity|left; exact E10]. }
+  fold n. f_equal. apply map_ext. intros i. do 2 f_equal. apply map_ext_in. intros j Hj.
+  apply filter_In in Hj as [Hj _]. apply in_seq in Hj. apply map_ext_in. intros s Hs.
+  unfold state_iv. cbn [snd]. rewrite (proj1 (H s Hs j ltac:(lia))). reflexivity.
+Qed.
+
+Corollary sync_no_mismatch_any_dtype fx g Wg (ms : nat -> M) (names : list string)
+          (ts : string -> nat -> tensor) : let n := List.length g in
+  fx_d10 fx = true -> fx_dt fx = true -> n > 1 -> n <= Wg -> NoDup names ->
+  (forall i, i < n -> map fst (sort_keys (sd (ms i))) = names) ->
+  (forall s, In s names -> forall i, i < n ->
+     assoc s (sd (ms i)) = Some (STensor (ts s i)) /\ wf (shp (ts s i)) (dat (ts s i))) ->
+  run_all (respond g) (map (fun i => get_synced_metric M sd mrg fx g n i Wg (ms i)) (seq 0 n)) <> None.
+Proof.
+  intros n E10 Edt Hn HW Hnd Hnames H.
+  pose proof (sync_equals_local_merge_any_dtype fx g Wg ms names ts E10 Edt Hn HW Hnd Hnames H) as E.
   fold n in E. rewrite E. discriminate.
 Qed.
 
